@@ -325,11 +325,18 @@ def check_wrapper(ctx, w, c, res, fdotted, fmod, fdef):
     k, fn = hit
     loc = ctx.loc(k.module, fn)
     selfname = _selfname(fn)
+    def lookup(mname, c=c):
+        hit2 = repo.lookup_method(c, mname)
+        return (hit2[0].module, hit2[1], hit2[0].is_static(mname)) if hit2 is not None else None
+
+    w.ex_plain.method_lookup = lookup
     try:
         paths = w.ex_plain.run(k.module, fn, selfname=selfname)
     except Undecidable as e:
         ctx.undecided("R2", "%s:returns-func" % name, "%s.__call__: %s" % (k.name, e), loc)
         return
+    finally:
+        w.ex_plain.method_lookup = None
     fparams, fdefaults, f_kwargs = w.sig(fdef, fmod)
     call_params = [p for p in astq.all_param_names(fn, skip_self=True)]
     own_kwargs = ("p", "**" + fn.args.kwarg.arg) if fn.args.kwarg else None
@@ -1247,6 +1254,8 @@ def rule_r6(ctx, w):
     fn = repo.func(FN, "_relative_error")
     loc = ctx.loc(w.fmod, fn)
     D = sub(YT, YB)
+    # spec (np.where terms are normalised the same way on both sides: complemented tests swap the branches)
+    spec_c, spec_x, spec_y = S.where_parts(call(F("numpy.where"), condition=mk_cmp(">=", D, K(0)), x=mx(D, eps), y=mn(D, neg(eps))))
     try:
         paths = [p for p in w.ex.run(w.fmod, fn) if p.outcome != "raise"]
     except Undecidable as e:
@@ -1255,17 +1264,17 @@ def rule_r6(ctx, w):
     it = {k: [] for k in ("shape", "num", "test", "pos", "neg")}
     for p in paths:
         c, ns, ds = _frac(p.value) if p.outcome == "return" else (None, (), ())
-        wh = ds[0] if len(ds) == 1 and S.is_call_to(ds[0], "numpy.where") and set(kwargs_of(ds[0])) == {"condition", "x", "y"} else None
+        wh = S.where_parts(ds[0]) if len(ds) == 1 else None
         it["shape"].append((p.outcome == "return" and wh is not None and len(ns) == 1,
                             "result is not (y_true - y_pred) / np.where(sign test, clamp+, clamp-): %s" % (show(p.value)[:200] if p.value else p.outcome)))
         if wh is None or len(ns) != 1:
             continue
-        kw = kwargs_of(wh)
         it["num"].append((c == 1 and ns[0] == d, "numerator is %s*%s, expected y_true - y_pred" % (c, show(ns[0]))))
-        it["test"].append((kw["condition"] == mk_cmp(">=", D, K(0)), "sign test is %s, expected y_true - y_pred_benchmark >= 0"
-                           % show(kw["condition"])))
-        it["pos"].append((kw["x"] == mx(D, eps), "non-negative branch is %s, expected max(y_true - y_pred_benchmark, EPS)" % show(kw["x"])))
-        it["neg"].append((kw["y"] == mn(D, neg(eps)), "negative branch is %s, expected min(y_true - y_pred_benchmark, -EPS)" % show(kw["y"])))
+        it["test"].append((wh[0] == spec_c, "sign test is %s, expected the test y_true - y_pred_benchmark >= 0 (normal form %s)"
+                           % (show(wh[0]), show(spec_c))))
+        ps, ns_ = (1, 2) if spec_x == mx(D, eps) else (2, 1)  # complemented tests swap the branches (spec and code alike)
+        it["pos"].append((wh[ps] == mx(D, eps), "branch for a non-negative difference is %s, expected max(y_true - y_pred_benchmark, EPS)" % show(wh[ps])))
+        it["neg"].append((wh[ns_] == mn(D, neg(eps)), "branch for a negative difference is %s, expected min(y_true - y_pred_benchmark, -EPS)" % show(wh[ns_])))
     if paths:
         _all(ctx, "R6", "_relative_error:shape", it["shape"], "quotient with a sign-selected clamp", loc)
         for key, tag, okd in (("num", "numerator", "y_true - y_pred"), ("test", "sign-test", ">= 0 on y_true - y_pred_benchmark"),
@@ -1273,41 +1282,52 @@ def rule_r6(ctx, w):
             if it[key]:
                 _all(ctx, "R6", "_relative_error:%s" % tag, it[key], okd, loc)
 
-    # ---- _asymmetric_error
+    # ---- _asymmetric_error: decided per option scenario (the two documented option values on each side), so any code
+    # shape (lookup table, if/elif, masked updates) is compared by what it computes
     fn = repo.func(FN, "_asymmetric_error")
     loc = ctx.loc(w.fmod, fn)
     thr = P("asymmetric_threshold")
-    table = ("dict", tuple(sorted(((K("squared"), F("numpy.square")), (K("absolute"), F("numpy.abs"))), key=repr)))
-    try:
-        paths = [p for p in w.ex.run(w.fmod, fn) if p.outcome != "raise"]
-    except Undecidable as e:
-        paths = []
-        ctx.undecided("R6", "_asymmetric_error:shape", str(e), loc)
+    ops = {"squared": call(F("numpy.square"), x=d), "absolute": call(F("numpy.abs"), x=d)}
+    cmp_lt = mk_cmp("<", d, thr)
     it = {k: [] for k in ("shape", "cmp", "left", "right", "table")}
-    for p in paths:
-        v = p.value
-        ok = p.outcome == "return" and S.is_call_to(v, "numpy.where") and set(kwargs_of(v)) == {"condition", "x", "y"}
-        it["shape"].append((ok, "result is not np.where(error < threshold, left(error), right(error)): %s" % (show(v)[:200] if v else p.outcome)))
-        if not ok:
-            continue
-        kw = kwargs_of(v)
-        it["cmp"].append((kw["condition"] == mk_cmp("<", d, thr),
-                          "threshold test is %s, expected (y_true - y_pred) < asymmetric_threshold (strictly less selects the left function)"
-                          % show(kw["condition"])))
-        for side, slot, prm in (("left", "x", "left_error_function"), ("right", "y", "right_error_function")):
-            t = kw[slot]
-            good = (t[0] == "call" and t[1][0] == "idx" and t[1][2] == P(prm) and t[2] == (d,) and not t[3])
-            it[side].append((good, "%s branch is %s, expected table[%s](y_true - y_pred)" % (side, show(t), prm)))
-            if good:
-                it["table"].append((t[1][1] == table, "error-function table is %s, expected {'squared': np.square, 'absolute': np.abs}"
-                                    % show(t[1][1])))
-    if paths:
-        _all(ctx, "R6", "_asymmetric_error:shape", it["shape"], "np.where selection", loc)
-        for key, tag, okd in (("cmp", "comparator", "strict < against the threshold"), ("left", "left", "left function below the threshold"),
-                              ("right", "right", "right function at or above the threshold"),
-                              ("table", "table", "'squared' -> np.square, 'absolute' -> np.abs")):
-            if it[key]:
-                _all(ctx, "R6", "_asymmetric_error:%s" % tag, it[key], okd, loc)
+    for lo in ("squared", "absolute"):
+        for ro in ("squared", "absolute"):
+            scen = "left_error_function=%r, right_error_function=%r" % (lo, ro)
+            try:
+                paths = [p for p in w.ex.run(w.fmod, fn, {"left_error_function": K(lo), "right_error_function": K(ro)})
+                         if p.outcome != "raise"]
+            except Undecidable as e:
+                it["shape"].append((None, "%s: %s" % (scen, e)))
+                continue
+            if not paths:
+                it["shape"].append((False, "%s: every path raises (the documented option values are rejected)" % scen))
+            for p in paths:
+                v = p.value
+                if p.outcome != "return" or v is None or S.has_unknown(v):
+                    it["shape"].append((None, "%s: result not interpretable: %s" % (scen, show(v)[:160] if v else p.outcome)))
+                    continue
+                it["shape"].append((True, ""))
+                if lo == ro:
+                    it["table"].append((v == ops[lo], "%s must apply np.%s to every error y_true - y_pred, but the result is %s "
+                                        "(witness: one error below and one above the threshold)"
+                                        % (scen, "square" if lo == "squared" else "abs", show(v)[:200])))
+                    continue
+                wh = S.where_parts(v)
+                if wh is None:
+                    it["shape"].append((False, "%s: result is not a selection between the two error functions: %s" % (scen, show(v)[:200])))
+                    continue
+                spec = S.where_parts(call(F("numpy.where"), condition=cmp_lt, x=ops[lo], y=ops[ro]))
+                ls, rs = (1, 2) if spec[1] == ops[lo] else (2, 1)  # complemented tests swap the branches (both sides alike)
+                it["cmp"].append((wh[0] == spec[0], "%s: threshold test is %s, expected (y_true - y_pred) < asymmetric_threshold "
+                                  "(strictly less selects the left function; normal form %s)" % (scen, show(wh[0]), show(spec[0]))))
+                it["left"].append((wh[ls] == ops[lo], "%s: errors below the threshold get %s, expected %s" % (scen, show(wh[ls]), show(ops[lo]))))
+                it["right"].append((wh[rs] == ops[ro], "%s: errors at or above the threshold get %s, expected %s" % (scen, show(wh[rs]), show(ops[ro]))))
+    _all(ctx, "R6", "_asymmetric_error:shape", it["shape"], "interpretable in all four option scenarios", loc)
+    for key, tag, okd in (("cmp", "comparator", "strict < against the threshold"), ("left", "left", "left function below the threshold"),
+                          ("right", "right", "right function at or above the threshold"),
+                          ("table", "table", "'squared' -> np.square, 'absolute' -> np.abs on both sides")):
+        if it[key]:
+            _all(ctx, "R6", "_asymmetric_error:%s" % tag, it[key], okd, loc)
 
     # ---- _weighted_geometric_mean
     fn = repo.func(FN, "_weighted_geometric_mean")
